@@ -1902,6 +1902,9 @@ class Parallel(Logger):
         try:
             self._iterating = True
             self._original_iterator = iterable
+            # Nothing is dispatched ahead of time in a sequential run
+            # (print_progress relies on this attribute).
+            self._pre_dispatch_amount = 0
             batch_size = self._get_batch_size()
 
             if batch_size != 1:
